@@ -49,7 +49,9 @@ IDENT_POOL = ["a", "b", "c", "x", "y", "z", "k1", "k2", "foo", "bar", "id", "n0"
 idents = st.sampled_from(IDENT_POOL)
 prims = gen.pick(
     st.none(), st.booleans(), st.integers(-2 ** 60, 2 ** 60), st.sampled_from([0, 1, -1, 0.0, -0.0, 1.5, 1e308, "", "é", float("inf"), float("-inf")]),
-    st.floats(allow_nan=False, allow_infinity=False), st.text("abcxyzé €", max_size=4).map(lambda s: "v:" + s))
+    st.floats(allow_nan=False, allow_infinity=False), st.text("abcxyzé €", max_size=4).map(lambda s: "v:" + s),
+    # text as the file system hands it over (os.fsdecode): lone surrogates, astral characters
+    st.sampled_from(["v:caf\udce9.txt", "v:\ud83d", "v:\U0001F600", "v:\udc80\udc81"]))
 plain_json = st.recursive(prims, lambda c: gen.pick(st.lists(c, max_size=3), st.dictionaries(idents, c, max_size=3)), max_leaves=5)
 SPECIAL_DECIMALS = ["-0", "1E+400", "sNaN", "0.10", "NaN", "-Infinity", "Infinity", "-NaN123", "1E-400", "0E+3"]
 
